@@ -52,6 +52,21 @@ def run_one(profile, program):
         torch.set_grad_enabled(True)
 
 
+def make_program(profile, pid, base_seed, i, tier):
+    """The program of run `i`: a pure function of (VERIF_SEED, property, i, tier)."""
+    seed = mix_seed(base_seed, pid, i)
+    rng = PRNG(seed, tier)
+    rng.decide_size_class()
+    program = profile.generate(rng)
+    program.setdefault("format", 1)
+    program["tier"] = tier
+    program["big"] = rng.big
+    program["property"] = pid
+    program["seed"] = seed
+    program["index"] = i
+    return program
+
+
 # ----------------------------------------------------------------------------- worker
 
 def worker_main(pid, base_seed, start, step, runs, budget_s, out_path, per_run_cap=180, tier="quick"):
@@ -75,15 +90,7 @@ def worker_main(pid, base_seed, start, step, runs, budget_s, out_path, per_run_c
         seed = mix_seed(base_seed, pid, i)
         try:
             signal.alarm(per_run_cap)
-            rng = PRNG(seed, tier)
-            rng.decide_size_class()
-            program = profile.generate(rng)
-            program.setdefault("format", 1)
-            program["tier"] = tier
-            program["big"] = rng.big
-            program["property"] = pid
-            program["seed"] = seed
-            program["index"] = i
+            program = make_program(profile, pid, base_seed, i, tier)
             r = run_one(profile, program)
             signal.alarm(0)
         except RunTimeout:
@@ -116,7 +123,8 @@ def worker_main(pid, base_seed, start, step, runs, budget_s, out_path, per_run_c
             per_key[key] = n + 1
             if n < 3:
                 res["violations"].append({"index": i, "seed": seed, "program": program,
-                                          "violation": r["violation"]})
+                                          "violation": r["violation"],
+                                          "earlier": list(range(start, i, step))})
             else:
                 res["violations"].append({"index": i, "seed": seed, "program": None,
                                           "violation": r["violation"]})
@@ -230,6 +238,18 @@ def replay_main(pid, path):
     with open(path) as f:
         doc = json.load(f)
     program = doc["program"] if "program" in doc else doc
+    # a session replay: the programs the same worker process had executed before this one, in order
+    # (needed only when the code under test keeps process-global state; see DESIGN 4.6)
+    for k, earlier in enumerate(doc.get("session", []) if isinstance(doc, dict) else []):
+        try:
+            signal.signal(signal.SIGALRM, _alarm)
+            signal.alarm(180)
+            r0 = run_one(profile, earlier)
+            signal.alarm(0)
+            print("REPLAY session[%d] status=%s digest=%s" % (k, r0["status"], r0["digest"]))
+        except Exception as ex:  # same treatment as in the worker: the run is skipped
+            signal.alarm(0)
+            print("REPLAY session[%d] error=%s" % (k, type(ex).__name__))
     r = run_one(profile, program)
     print("REPLAY status=%s digest=%s" % (r["status"], r["digest"]))
     if r["status"] == "violation":
@@ -352,17 +372,68 @@ def check_main(pid, tier, base_seed, runs=None, jobs=None, budget_s=None):
         if len(new_violations) >= 6:
             new_violations.append((key, None, len(vs)))
             continue
-        small = shrink(profile, first["program"], key, time.time() + shrink_budget)
         rel = os.path.join("replays", "%s-%d.json" % (pid, first["seed"]))
         path = os.path.join(HERE, rel)
-        # re-run the shrunk program to record its violation detail
-        r = run_one(profile, small)
-        vio = r.get("violation", first["violation"])
-        with open(path, "w") as f:
-            json.dump({"property": pid, "seed": first["seed"], "base_seed": base_seed, "index": first["index"],
-                       "violation": vio, "program": small,
-                       "original_ops": len(first["program"].get("ops", [])),
-                       "shrunk_ops": len(small.get("ops", []))}, f, indent=1, sort_keys=True)
+
+        def write(program, vio, session=None):
+            doc = {"property": pid, "seed": first["seed"], "base_seed": base_seed, "index": first["index"],
+                   "violation": vio, "program": program,
+                   "original_ops": len(first["program"].get("ops", [])),
+                   "shrunk_ops": len(program.get("ops", []))}
+            if session is not None:
+                doc["session"] = session
+                doc["original_session"] = len(first.get("earlier", []))
+            with open(path, "w") as f:
+                json.dump(doc, f, indent=1, sort_keys=True)
+
+        # (a) the program alone, in a fresh interpreter
+        write(first["program"], first["violation"])
+        okc, log = confirm_fresh(pid, path, key)
+        if okc:
+            small = shrink(profile, first["program"], key, time.time() + shrink_budget)
+            r = run_one(profile, small)  # records the violation detail of the shrunk program
+            write(small, r.get("violation", first["violation"]))
+            okc, log = confirm_fresh(pid, path, key)
+            if not okc:  # the shrunk program relied on state of this parent process: keep the unshrunk one
+                write(first["program"], first["violation"])
+            new_violations.append((key, rel, len(vs)))
+            continue
+        # (b) the violation needs what the same worker process had executed before: replay the session
+        first = min(withprog, key=lambda v: len(v.get("earlier", [])))
+        rel = os.path.join("replays", "%s-%d.json" % (pid, first["seed"]))
+        path = os.path.join(HERE, rel)
+        session = []
+        for j in first.get("earlier", []):
+            try:
+                session.append(make_program(profile, pid, base_seed, j, tier))
+            except Exception:
+                pass
+        write(first["program"], first["violation"], session)
+        okc, log = confirm_fresh(pid, path, key)
+        if not okc:
+            unconfirmed.append((key, rel, log))
+            continue
+        # ddmin over the earlier programs; every test is a fresh interpreter
+        deadline = time.time() + shrink_budget
+        n = 2
+        while session and time.time() < deadline:
+            chunk = max(1, len(session) // n)
+            reduced = False
+            for s0 in range(0, len(session), chunk):
+                cand = session[:s0] + session[s0 + chunk:]
+                write(first["program"], first["violation"], cand)
+                if confirm_fresh(pid, path, key)[0]:
+                    session = cand
+                    n = max(n - 1, 2)
+                    reduced = True
+                    break
+                if time.time() > deadline:
+                    break
+            if not reduced:
+                if chunk == 1:
+                    break
+                n = min(len(session), n * 2)
+        write(first["program"], first["violation"], session)
         okc, log = confirm_fresh(pid, path, key)
         if okc:
             new_violations.append((key, rel, len(vs)))
